@@ -115,6 +115,16 @@ Derived ==
         THEN { E(<<"Optional", x.t, TRUE>>, Rep(x.v, 0, 1, TRUE)) : x \in {A1, A12} }
              \cup { E(<<"OneOrMore", x.t, FALSE>>, Rep(x.v, 1, Inf, FALSE)) : x \in {A2} }
              \cup { E(<<"Exactly", x.t, <<"i", 2>>>>, Rep(x.v, 2, 2, TRUE)) : x \in {A1} }
+             \cup { E(<<"Indefinite", x.t, TRUE>>, Rep(x.v, 0, Inf, TRUE)) : x \in {A1, A2} }
+             \cup { E(<<"AtLeastAtMost", x.t, <<"i", 1>>, <<"i", 2>>, FALSE>>, Rep(x.v, 1, 2, FALSE)) : x \in {A1} }
+        ELSE {})
+  \cup (IF "nested" \in PoolSel      \* a named capture / a flagged group inside a concatenation
+        THEN { E(<<"Concat", <<"args", <<"Capture", A1.t, <<"name", "k">>>>, A2.t>>>>, Cat(Cap(A1.v, "k"), A2.v)),
+               E(<<"Concat", <<"args", <<"Group", A1.t, TRUE>>, A2.t>>>>, Cat(Grp(A1.v, TRUE), A2.v)),
+               E(<<"Concat", <<"args", A2.t, <<"Group", A1.t, FALSE>>>>>>, Cat(A2.v, Grp(A1.v, FALSE))),
+               E(<<"Capture", <<"Concat", <<"args", <<"Capture", A1.t, <<"name", "k">>>>, A2.t>>>>, <<"name", "j">>>>, Cap(Cat(Cap(A1.v, "k"), A2.v), "j")),
+               E(<<"Group", <<"Concat", <<"args", <<"Group", A1.t, TRUE>>, A2.t>>>>, FALSE>>, Grp(Cat(Grp(A1.v, TRUE), A2.v), FALSE)),
+               E(<<"Group", <<"Concat", <<"args", <<"Capture", A1.t, <<"name", "k">>>>, A2.t>>>>, FALSE>>, Grp(Cat(Cap(A1.v, "k"), A2.v), FALSE)) }
         ELSE {})
   \cup (IF "group" \in PoolSel
         THEN { E(<<"Capture", x.t, <<"none">>>>, Cap(x.v, "")) : x \in {A1, A12} }
@@ -135,6 +145,10 @@ S(t, o, tg) == [t |-> t, o |-> o, tg |-> tg]
 TagOf(y) == (IF IsEmpty(y.v) THEN {"emptyarg"} ELSE {}) \cup (IF y.t[1] = "str" THEN {"strarg"} ELSE {})
               \cup (IF IsBad(y.v) THEN {"badarg"} ELSE {})
 
+UnaryOps(x) ==   \* class forms with a single argument return that argument
+  IF "unary" \notin OpSel THEN {}
+  ELSE { S(<<o, <<"args", x.t>>>>, EOperatorN(o, <<x.v>>), {}) : o \in {"Concat", "Either", "Enclose"} }
+
 BinOps(x) ==
   (IF "concat" \in OpSel
    THEN { S(<<"Concat", <<"args", x.t, y.t>>>>, EConcat(x.v, y.v), TagOf(y) \cup {"xfirst"}) : y \in Pool }
@@ -149,9 +163,10 @@ BinOps(x) ==
         \cup { S(<<"Enclose", <<"args", y.t, x.t>>>>, EEnclose(y.v, x.v), TagOf(y)) : y \in Pool }
    ELSE {})
 
-\* bound codes in Quants: n >= 0 the integer; -1 None; -2 the integer -1; -3 a bool; -4 a float; -5 a str
-IA(n) == CASE n >= 0 -> IntA(n) [] n = -1 -> NoneA [] n = -2 -> IntA(-1) [] n = -3 -> BoolA [] n = -4 -> FloatA [] n = -5 -> StrA
-TA(n) == CASE n >= 0 -> <<"i", n>> [] n = -1 -> <<"none">> [] n = -2 -> <<"i", -1>> [] n = -3 -> <<"bool">> [] n = -4 -> <<"float">> [] n = -5 -> <<"str">>
+\* bound codes in Quants: n >= 0 the integer; -1 None; -2 the integer -1; -3 True; -4 1.5; -5 a str; -6 False; -7 0.0; -8 1.0
+IA(n) == CASE n >= 0 -> IntA(n) [] n = -1 -> NoneA [] n = -2 -> IntA(-1) [] n \in {-3, -6} -> BoolA [] n \in {-4, -7, -8} -> FloatA [] n = -5 -> StrA
+TA(n) == CASE n >= 0 -> <<"i", n>> [] n = -1 -> <<"none">> [] n = -2 -> <<"i", -1>> [] n = -3 -> <<"bool">> [] n = -4 -> <<"float">>
+           [] n = -5 -> <<"str">> [] n = -6 -> <<"boolf">> [] n = -7 -> <<"float0">> [] n = -8 -> <<"float1">>
 QuantOps(x) ==
   IF "quant" \notin OpSel THEN {}
   ELSE { (CASE q[1] = "Optional"   -> S(<<"Optional", x.t, q[4]>>, EOptional(x.v, q[4]), {})
@@ -198,7 +213,7 @@ CondOps(x) ==
                     S(<<"Conditional", <<"badtype">>, x.t>>, EConditional(BadTypeA, x.v, Eps, FALSE), {"badarg"}) }
              ELSE {})
 
-Step(x) == CondOps(x) \cup BinOps(x) \cup QuantOps(x) \cup GroupOps(x) \cup AnchorOps(x) \cup LookOps(x)
+Step(x) == CondOps(x) \cup UnaryOps(x) \cup BinOps(x) \cup QuantOps(x) \cup GroupOps(x) \cup AnchorOps(x) \cup LookOps(x)
 
 (* ------------------------------ machine -------------------------------- *)
 
